@@ -37,6 +37,7 @@ def main():
     ap.add_argument('--replay')
     ap.add_argument('--cases', type=int)
     ap.add_argument('--workers', type=int)
+    ap.add_argument('--one', type=int, help='run exactly one case index in this process (crash isolation)')
     ap.add_argument('--digest-only', action='store_true', help='print the campaign digest (determinism self-test)')
     args = ap.parse_args()
     check_id = args.check.upper()
@@ -56,6 +57,16 @@ def main():
     if args.replay:
         return replay(check, args.replay)
 
+    if args.one is not None:
+        check.setup_main()
+        check.setup_worker()
+        import signal
+        signal.signal(signal.SIGINT, signal.default_int_handler)
+        signal.signal(signal.SIGALRM, kernel._alarm)
+        case = check.gen(kernel.case_rng(seed, check.ID, args.one), args.one, args.tier)
+        res = kernel.run_one(check, case, 120) if case is not None else None
+        print('ONE', args.one, 'violations', len((res or {}).get('violations') or []))
+        return 0
     print(f'VERIF_SEED={seed} check={check_id} tier={args.tier}', flush=True)
     try:
         check.setup_main()
